@@ -90,7 +90,7 @@ def _words_ok(c1, c2, c3, q):
     ok = True
     if ctx.S('cats') is None:
         ok = ok and c1 in words and c2 in words
-        if ctx.BOUNDS.get('N', 2) >= 3:
+        if ctx.B('N', 2) >= 3:
             ok = ok and c3 in words
     if ctx.S('q') is None:
         ok = ok and q in words
@@ -205,17 +205,15 @@ _QS = [{'cassette': c, 'filter': f, 'q': q} for c in _CASS for f in ('none',) fo
       [{'cassette': c, 'filter': f, 'cats': _FIXCATS, 'q': 'a'} for c in _CASS for f in ('default-skip-incomplete', 'flag-true')] + \
       [{'cassette': 'mem', 'filter': f, 'cats': _FIXCATS, 'q': 'a'} for f in ('flag-any-of', 'flag-gt')] + \
       [{'cassette': c, 'filter': 'none', 'random': True, 'q': 'a'} for c in ('mem', 's3')]
-_TS = [{'cassette': c, 'filter': f, 'q': q} for c in _CASS for f in ('none', 'default-skip-incomplete') for q in ('a', 'a_', '_a')] + \
-      [{'cassette': c, 'filter': 'none', 'random': True, 'q': 'a'} for c in _CASS] + \
-      [{'cassette': c, 'filter': f, 'cats': _FIXCATS, 'q': 'a', 'random': rd} for c in _CASS
-       for f in ('default-skip-incomplete', 'flag-true', 'flag-any-of', 'flag-gt') for rd in (False, True)]
+_TS = _QS + [dict({'cassette': c, 'filter': f, 'q': 'a'}, **{'b.N': 3, 'b.NMIN': 3}) for c in ('mem', 'file') for f in ('none', 'default-skip-incomplete')] + \
+      [{'cassette': c, 'filter': f, 'cats': _FIXCATS, 'q': 'a', 'random': True} for c in _CASS for f in ('default-skip-incomplete', 'flag-true')]
 _W = {'cassette': 'file', 'filter': 'flag-true', 'cats': _FIXCATS, 'q': 'a'}
 CONDITIONS = [
     {'fn': 'lookup', 'nontrivial': 'some-match-some-not',
      'what': 'saved recordings with symbolic category texts / metadata vs a query; sharded by (cassette, filter kind, query text '
              'or fixed categories)',
      'tiers': {'quick': {'bounds': {'CL': 2, 'ALPHA': ['a', '_'], 'LIM': 1, 'N': 2, 'NMIN': 2}, 'timeout': 600, 'shards': _QS, 'witness_shard': _W},
-               'thorough': {'bounds': {'CL': 2, 'ALPHA': ['a', '_'], 'LIM': 3, 'N': 3, 'NMIN': 3}, 'timeout': 6000, 'shards': _TS, 'witness_shard': _W}}},
+               'thorough': {'bounds': {'CL': 2, 'ALPHA': ['a', '_'], 'LIM': 2, 'N': 2, 'NMIN': 2}, 'timeout': 6000, 'shards': _TS, 'witness_shard': _W}}},
     {'fn': 'metadata_listing', 'nontrivial': 'listed',
      'what': 'iter_recordings_metadata returns the metadata of exactly the listed recordings',
      'tiers': {'quick': {'bounds': {'CL': 2, 'ALPHA': ['a', '_']}, 'timeout': 600, 'shards': [{'cassette': c, 'q': 'a'} for c in ('mem', 'file', 's3')],
